@@ -16,3 +16,12 @@ func VerifComputeBVector(ic *IPAConfig, evalPoint fr.Element) []fr.Element {
 	return computeBVector(ic, evalPoint)
 }
 func VerifNumRounds(ic *IPAConfig) uint32 { return ic.numRounds }
+
+// VerifLabels returns copies of the Fiat-Shamir labels of this package.
+func VerifLabels() [][]byte {
+	out := [][]byte{}
+	for _, l := range [][]byte{labelDomainSep, labelC, labelInputPoint, labelOutputPoint, labelW, labelL, labelR, labelX} {
+		out = append(out, append([]byte(nil), l...))
+	}
+	return out
+}
